@@ -4,7 +4,7 @@
    item and the decoder folds it back into the token — is C02/C04
    (rfc_enc / parse_item carry the tag of every node). *)
 From Coq Require Import List ZArith.
-Require Import Tok GoVal Marshal Unmarshal TagProof.
+Require Import Tok GoVal Marshal Unmarshal ObjProof TagProof TagPositions.
 Import ListNotations.
 Open Scope Z_scope.
 
@@ -68,3 +68,76 @@ Example C20_tag_inside_untyped_slice :
   UTDone 3 (VAny (Some (GSlice GAny, VSlice (Some [VAny (Some (GNamed 5 GStr, GVStr [97]))])))) /\
   unmarshal_top [] c20_A GAny [Tok (Str [97]) (Some 51)] = UTErr 1.
 Proof. vm_compute. repeat split; reflexivity. Qed.
+
+(* ---- "wherever the value occurs": one theorem per position (TagPositions.v) --------------------------------
+   [ptrs n t] is t behind n pointers; [tag_or_null tg ts]: ts starts with a token carrying exactly tg, or is the
+   single token null (a nil pointer on the way has no item to tag).  The stream of a container is cut into the
+   segments of its members; each member of (a pointer to ...) the tagged type starts with the tag. *)
+Theorem C20_tag_behind_pointers : forall A f n t v ts e tg,
+  peel t = (O, t) -> is_unnamed_prim t = false -> atlas_get A t = Some e -> ae_tag e = Some tg ->
+  (match ae_kind e with EStruct _ | ETransform _ _ => True | _ => False end) ->
+  marshal A f (ptrs n t) v = MOk ts ->
+  (ts = [Tok Null None] /\ deref n v = None) \/ tagged_start tg ts.
+Proof. exact tagged_behind_pointers. Qed.
+Print Assumptions C20_tag_behind_pointers.
+
+Theorem C20_tag_inside_untyped_slot : forall A f n t v ts e tg,
+  peel t = (O, t) -> is_unnamed_prim t = false -> atlas_get A t = Some e -> ae_tag e = Some tg ->
+  (match ae_kind e with EStruct _ | ETransform _ _ => True | _ => False end) ->
+  marshal_kind A f GAny (VAny (Some (ptrs n t, v))) = MOk ts -> tag_or_null tg ts.
+Proof. exact tagged_in_untyped_slot. Qed.
+
+Theorem C20_tag_on_every_slice_element : forall A t e tg n,
+  peel t = (O, t) -> is_unnamed_prim t = false -> atlas_get A t = Some e -> ae_tag e = Some tg ->
+  (match ae_kind e with EStruct _ | ETransform _ _ => True | _ => False end) ->
+  forall f items ts,
+  marshal_kind A f (GSlice (ptrs n t)) (VSlice (Some items)) = MOk ts ->
+  exists segs, ts = Tok (ArrOpen (Z.of_nat (length items))) None :: concat segs ++ [Tok ArrClose None] /\
+    length segs = length items /\ Forall (tag_or_null tg) segs.
+Proof. exact tagged_as_slice_element. Qed.
+
+Theorem C20_tag_on_every_array_element : forall A t e tg n,
+  peel t = (O, t) -> is_unnamed_prim t = false -> atlas_get A t = Some e -> ae_tag e = Some tg ->
+  (match ae_kind e with EStruct _ | ETransform _ _ => True | _ => False end) ->
+  forall f k items ts,
+  marshal_kind A f (GArr k (ptrs n t)) (GVArr items) = MOk ts ->
+  exists segs, ts = Tok (ArrOpen (Z.of_nat (length items))) None :: concat segs ++ [Tok ArrClose None] /\
+    length segs = length items /\ Forall (tag_or_null tg) segs.
+Proof. exact tagged_as_array_element. Qed.
+
+Theorem C20_tag_on_every_map_value : forall A t e tg n,
+  peel t = (O, t) -> is_unnamed_prim t = false -> atlas_get A t = Some e -> ae_tag e = Some tg ->
+  (match ae_kind e with EStruct _ | ETransform _ _ => True | _ => False end) ->
+  forall f mode kt es ts,
+  marshal_map A f mode kt (ptrs n t) (Some es) = MOk ts ->
+  exists segs, ts = Tok (MapOpen (Z.of_nat (length es))) None :: concat (map entry_tokens segs) ++ [Tok MapClose None] /\
+    length segs = length es /\ Forall (fun ks => tag_or_null tg (snd ks)) segs.
+Proof. exact tagged_as_map_value. Qed.
+
+Theorem C20_tag_on_every_struct_field : forall A t e tg n,
+  peel t = (O, t) -> is_unnamed_prim t = false -> atlas_get A t = Some e -> ae_tag e = Some tg ->
+  (match ae_kind e with EStruct _ | ETransform _ _ => True | _ => False end) ->
+  forall f se fields v ts,
+  ae_kind se = EStruct fields ->
+  marshal_entry A f se v = MOk ts ->
+  exists segs, ts = Tok (MapOpen (Z.of_nat (length (live_fields fields v)))) (ae_tag se)
+                      :: concat (map field_tokens segs) ++ [Tok MapClose None] /\
+    map fst segs = live_fields fields v /\
+    Forall (fun fs => fe_type (fst fs) = ptrs n t -> tag_or_null tg (snd fs)) segs.
+Proof. exact tagged_as_struct_field. Qed.
+Print Assumptions C20_tag_on_every_struct_field.
+
+(* kernel-evaluated, so that the hypotheses are seen to be met: a tagged struct (tag 70000) as a slice element behind
+   a pointer (one nil), as a map value and as a field of another struct *)
+Definition c20_P := Atlas [AE (GStruct 7) (Some 70000) (EStruct [FE [120] [0%nat] (GNum I64) false false]);
+                           AE (GStruct 8) None (EStruct [FE [112] [0%nat] (GPtr (GStruct 7)) false false])] 0.
+Example C20_positions_hypotheses_met :
+  peel (GStruct 7) = (O, GStruct 7) /\ is_unnamed_prim (GStruct 7) = false /\
+  (exists e, atlas_get c20_P (GStruct 7) = Some e /\ ae_tag e = Some 70000) /\
+  marshal_top [] c20_P (GSlice (GPtr (GStruct 7))) (VSlice (Some [VPtr (Some (VStruct [VNum 5])); VPtr None])) =
+    MOk [Tok (ArrOpen 2) None; Tok (MapOpen 1) (Some 70000); Tok (Str [120]) None; Tok (Int 5) None; Tok MapClose None;
+         Tok Null None; Tok ArrClose None] /\
+  marshal_top [] c20_P (GStruct 8) (VStruct [VPtr (Some (VStruct [VNum 5]))]) =
+    MOk [Tok (MapOpen 1) None; Tok (Str [112]) None; Tok (MapOpen 1) (Some 70000); Tok (Str [120]) None; Tok (Int 5) None;
+         Tok MapClose None; Tok MapClose None].
+Proof. vm_compute. repeat split; try reflexivity. eexists; split; reflexivity. Qed.
